@@ -219,6 +219,11 @@ def do_propagate(req, what):
     return None
 
 
+def fresh(obj):
+    """A private copy: scripted application logic may mutate resp.media in place."""
+    return json.loads(json.dumps(obj))
+
+
 def apply_pre(resp, s):
     """Everything a responder sets except the stream (sync/async differ there) and raising."""
     if s['status'] is not None:
@@ -261,16 +266,16 @@ def apply_pre(resp, s):
     elif kind == 'data':
         resp.data = lat(b[1])
     elif kind == 'media':
-        resp.media = b[1]
+        resp.media = fresh(b[1])
     elif kind == 'text+data':
         resp.text = b[1]
         resp.data = lat(b[2])
     elif kind == 'data+media':
         resp.data = lat(b[1])
-        resp.media = b[2]
+        resp.media = fresh(b[2])
     elif kind == 'text+media':
         resp.text = b[1]
-        resp.media = b[2]
+        resp.media = fresh(b[2])
     elif kind == 'stream+text':
         resp.text = b[3]
 
